@@ -25,13 +25,22 @@ const isFloat32 = 4
 const isFloat64 = 8
 
 func readNBytes(src *bufio.Reader, n int) []byte {
-	ret := make([]byte, n)
+	if n < 0 {
+		panic(fmt.Errorf("Invalid length: %d", n))
+	}
+	// n comes from the input: do not allocate more than what was actually read.
+	const maxPrealloc = 4096
+	c := n
+	if c > maxPrealloc {
+		c = maxPrealloc
+	}
+	ret := make([]byte, 0, c)
 	for i := 0; i < n; i++ {
 		ch, e := src.ReadByte()
 		if e != nil {
 			panic(fmt.Errorf("Tried to Read %d Bytes.. But hit end of file", n))
 		}
-		ret[i] = ch
+		ret = append(ret, ch)
 	}
 	return ret
 }
@@ -218,6 +227,7 @@ func decodeStringToDataUrl(src *bufio.Reader, mimeType string) []byte {
 	}
 	length := decodeIntAdditionalType(src, minor)
 	l := int(length)
+	pbs := readNBytes(src, l)
 	enc := base64.StdEncoding
 	lEnc := enc.EncodedLen(l)
 	result := make([]byte, len("\"data:;base64,\"")+len(mimeType)+lEnc)
@@ -228,7 +238,6 @@ func decodeStringToDataUrl(src *bufio.Reader, mimeType string) []byte {
 	dest = dest[u:]
 	u = copy(dest, ";base64,")
 	dest = dest[u:]
-	pbs := readNBytes(src, l)
 	enc.Encode(dest, pbs)
 	dest = dest[lEnc:]
 	dest[0] = '"'
